@@ -23,6 +23,7 @@ from liquid.builtin.expressions import Path
 from liquid.builtin.expressions import StringLiteral
 from liquid.builtin.output import OutputNode
 from liquid.exceptions import TranslationSyntaxError
+from liquid.extra.filters.translate import interpolate
 from liquid.limits import to_int
 from liquid.messages import MESSAGES
 from liquid.messages import MessageText
@@ -55,7 +56,8 @@ class TranslateNode(Node, TranslatableTag):
     translations_var = "translations"
     message_count_var = "count"
     message_context_var = "context"
-    re_vars = re.compile(r"(?<!%)%\((\w+)\)s")
+    # Matches an escaped percent sign or a `%(name)s` placeholder.
+    re_vars = re.compile(r"%%|%\((\w+)\)s")
 
     def __init__(
         self,
@@ -259,9 +261,10 @@ class TranslateNode(Node, TranslatableTag):
         _vars = {
             k: to_liquid_string(context.resolve(k), autoescape=autoescape)
             for k in self.re_vars.findall(message_text)
+            if k
         }
 
-        return message_text % _vars
+        return interpolate(self.re_vars, message_text, _vars)
 
 
 class TranslateTag(Tag):
